@@ -23,14 +23,14 @@ func init() {
 			"encoding/binary.Read reports short input as an error (StatVFS decoding)",
 			"conversions between integer types are modelled by width for the analysed GOARCH (amd64 quick; 386 added in the thorough tier)",
 		},
-		extra: []BuildConfig{cfg386},
+		quickExtra: []BuildConfig{cfg386},
 	})
 	register("C20", &propSpec{
 		level:       "other",
 		explanation: "The bounds prover of C08 applied to the client's reply decoding: every index/slice/make whose operand or bound derives from a server reply (results of clientConn.sendPacket, result.data taken from a channel, recvPacket) in every Client/File method and in their background goroutines is an obligation; the axiom 'a delivered payload has at least 4 bytes' is itself proved where results are constructed (recv); every switch on the reply type has an error default; decoders only return errors.",
 		run:         runC20,
 		assumptions: []string{"binary.Read (StatVFS) allocates nothing proportional to a length taken from the input"},
-		extra:       []BuildConfig{cfg386},
+		quickExtra:  []BuildConfig{cfg386},
 	})
 }
 
